@@ -94,6 +94,38 @@ def orientsOk (obs : Sx) : Bool :=
 def noCrash (s : String) : Bool :=
   !((s.splitOn "panic").length > 1 || (s.splitOn "crash").length > 1 || (s.splitOn "timeout").length > 1 || (s.splitOn "missing").length > 1)
 
+/-- progress.<proto> (C20): conservation of the fed bytes.  Every reading of the progress counter
+    ends up as the capture size of a message; those in items, those still waiting in the matcher and
+    what the counters hold at the end add up to the bytes fed.  (Kafka takes capture sizes from the
+    message sizes instead of the counter: with nothing waiting they must add up to the bytes fed.)
+    AMQP conversations holding connection.start-ok / tune-ok lose whole messages in the matcher
+    (recorded finding `amqp-handshake-collision`), and their sizes with them. -/
+def judgeProgress (proto payload impl : String) : Verdict :=
+  let nums (name : String) : Option (Nat × Nat) :=
+    match Sx.parse impl with
+    | some o => match field? o name with
+      | some [a, b] => do some ((← a.asNat?), (← b.asNat?))
+      | _ => none
+    | none => none
+  let tags : List String :=
+    if proto == "amqp" then
+      match Sx.parse payload with
+      | some (.list [.list [.list (.atom "c" :: cfs), .list (.atom "s" :: sfs)], _, _]) =>
+        match cfs.mapM frameOfSx, sfs.mapM frameOfSx with
+        | some cf, some sf => (Spec.tagsOf (cf ++ sf)).filter (· == "amqp-handshake-collision")
+        | _, _ => []
+      | _ => []
+    else []
+  match nums "fed", nums "items", nums "waiting", nums "rest" with
+  | some (fc, fs), some (ni, si), some (nw, sw), some (rc, rs) =>
+    let clean := noCrash impl && (impl.splitOn "unknown-waiting").length == 1
+    let ok := if proto == "kafka" then nw != 0 || si == fc + fs else si + sw + rc + rs == fc + fs
+    { corr := ok || !tags.isEmpty, implSpec := ok && clean, modelSpec := true, tags,
+      nontrivial := ni + nw > 0, cls := s!"items={min ni 4},waiting={min nw 3}",
+      model := s!"accounted = fed = {fc + fs}", spec := "capture sizes of all messages + what the counters still hold = bytes fed" }
+  | _, _, _, _ => { corr := false, implSpec := false, modelSpec := true, tags := [], nontrivial := true,
+                    cls := "no-observation", model := "-", spec := "capture sizes add up to the bytes fed" }
+
 def judgeConv (payload impl : String) : Verdict :=
   match Sx.parse payload with
   | some (.list [.list (.atom "c" :: cfs), .list (.atom "s" :: sfs)]) =>
